@@ -25,7 +25,7 @@ func verifH_C15_filter() {
 	resps.Set("200", &openapi3.ResponseRef{Value: &openapi3.Response{Description: &d, Headers: openapi3.Headers{"X-R": {Value: &openapi3.Header{Parameter: openapi3.Parameter{Required: true, Schema: str}}}},
 		Content: openapi3.Content{"text/plain": &openapi3.MediaType{Schema: str}}}})
 	op := &openapi3.Operation{Responses: resps,
-		Parameters: openapi3.Parameters{{Value: &openapi3.Parameter{Name: "q", In: "query", Schema: intDef}}, {Value: &openapi3.Parameter{Name: "X-A", In: "header", Schema: arr}}},
+		Parameters:  openapi3.Parameters{{Value: &openapi3.Parameter{Name: "q", In: "query", Schema: intDef}}, {Value: &openapi3.Parameter{Name: "X-A", In: "header", Schema: arr}}},
 		RequestBody: &openapi3.RequestBodyRef{Value: &openapi3.RequestBody{Content: openapi3.Content{"text/plain": &openapi3.MediaType{Schema: str}}}},
 		Security:    &openapi3.SecurityRequirements{{"A": {}}},
 	}
